@@ -214,7 +214,7 @@ func (c34) Gen(seed int64, tier string, emit func(any)) {
 	rng := rand.New(rand.NewSource(seed))
 	n := 1200
 	if thorough {
-		n = 20000
+		n = 15000
 	}
 	name := func() string {
 		if rng.Intn(4) == 0 {
